@@ -34,6 +34,8 @@ SUITES = {
     "meta_plain":  ("meta",   "plain", [],                    "release", (12, 120), (0, 0)),
     "meta_set":    ("meta",   "heap",  ["--set"],             "debug",   (12, 120), (0, 0)),
     "meta_zst":    ("meta",   "zst",   [],                    "debug",   (6, 30),   (0, 0)),
+    "tomb_plain":  ("tomb",   "plain", [],                    "debug",   (8, 64),   (0, 0)),
+    "tomb_heap":   ("tomb",   "heap",  [],                    "release", (8, 64),   (0, 0)),
     "defects":     ("scripts", None,   [],                    "both",    (1, 1),    (0, 0)),
 }
 
@@ -60,11 +62,11 @@ MC = {
 ALL_MAP = ["core_heap", "core_plain", "core_zst", "rel_heap", "defects"]
 
 PROPS = {
-    "C01": dict(suites=["core_heap", "core_plain", "core_zst", "rel_heap", "rel_plain", "defects"], mc=["Small", "CountR8"]),
-    "C02": dict(suites=["core_plain", "rel_plain", "core_heap", "defects"], mc=["CountR8"]),
-    "C03": dict(suites=["core_plain", "core_heap", "rel_plain", "set_heap", "defects"], mc=["Small", "CountR8"]),
-    "C04": dict(suites=["core_plain", "rel_plain", "limits_dbg", "limits_rel", "two_heap", "defects"], mc=["Small", "CountR8"]),
-    "C05": dict(suites=["core_heap", "rel_heap", "core_zst", "set_heap", "set_zst", "two_heap", "defects"], mc=["Small", "CountR8"]),
+    "C01": dict(suites=["tomb_plain", "tomb_heap", "core_heap", "core_plain", "core_zst", "rel_heap", "rel_plain", "defects"], mc=["Small", "CountR8"]),
+    "C02": dict(suites=["tomb_plain", "tomb_heap", "core_plain", "rel_plain", "core_heap", "defects"], mc=["CountR8"]),
+    "C03": dict(suites=["tomb_plain", "tomb_heap", "core_plain", "core_heap", "rel_plain", "set_heap", "defects"], mc=["Small", "CountR8"]),
+    "C04": dict(suites=["tomb_plain", "tomb_heap", "core_plain", "rel_plain", "limits_dbg", "limits_rel", "two_heap", "defects"], mc=["Small", "CountR8"]),
+    "C05": dict(suites=["tomb_plain", "tomb_heap", "core_heap", "rel_heap", "core_zst", "set_heap", "set_zst", "two_heap", "defects"], mc=["Small", "CountR8"]),
     "C06": dict(suites=["core_heap", "rel_heap", "two_heap", "set_heap", "set_two", "defects"], mc=["Small"]),
     "C07": dict(suites=["fault_heap", "fault_heap_rel", "fault_plain", "fault_two", "fault_set", "fault_zst", "defects"], mc=[]),
     "C08": dict(suites=["core_heap", "rel_heap", "core_plain", "set_heap", "core_zst"], mc=["Small"]),
